@@ -209,6 +209,14 @@ func genC02(r *RNG, splits bool) *CliPlan {
 		hpackTableFull(r, p.Lanes[:n], 4096)
 		p.Srv.HeaderTableSize = -1
 	}
+	if r.Intn(5) == 0 {
+		// the server asks too: PINGs at scheduler-chosen moments, each to be acknowledged with its own payload
+		pl := Lane{Name: "pings", After: -1}
+		for k := 1 + r.Intn(4); k > 0; k-- {
+			pl.Ops = append(pl.Ops, Op{Kind: "ping", Pad: -1, TableSize: -1})
+		}
+		p.Lanes = append(p.Lanes, pl)
+	}
 	return p
 }
 
@@ -517,6 +525,24 @@ func RunCliLate(plan *CliPlan, tape *Tape, searchSeed uint64, prop string, onlin
 	if sim.Viol == nil {
 		w.phase = 1
 		sim.RunPhase(w, 0, false)
+	}
+	if sim.Viol == nil && sim.Steps < sim.MaxSteps && plan.NoPingAck && plan.PingInterval > 0 && !plan.DisablePingChecking {
+		// a server that answers no PING: the client's own check has to end the connection, and with it every request
+		// that is still waiting, before anybody closes anything
+		sim.RunPhase(w, 10*plan.PingInterval, false)
+		w.srvReceive()
+		w.drainEvents()
+		inWrite := false
+		for _, g := range w.aliveList() {
+			inWrite = inWrite || strings.Contains(g, "cli.Write") // parked in the transport: no PING can go out, nothing to time
+		}
+		for k, c := range w.callers {
+			if c.started && !c.returned && !c.cancelOffered && !inWrite {
+				sim.Viol = &Violation{Property: prop, Rule: "ping-timeout-missed", Sig: "ping-timeout-missed/" + blockedSig(w.aliveSys()),
+					Detail: fmt.Sprintf("the server has acknowledged no PING for ten ping intervals (%v each, acknowledgements are checked) but caller %d is still waiting on Ctx.Err; goroutines: %s", plan.PingInterval, k, strings.Join(w.aliveList(), "; "))}
+				break
+			}
+		}
 	}
 	if sim.Viol == nil && sim.Steps < sim.MaxSteps && final != nil {
 		w.srvReceive()
